@@ -2,7 +2,7 @@
    returns a solution for every offered penalisation"); with a number as ridge_coef the call is fista on the defaulted
    arguments and, non_negative with >= 1 iteration, returns a matrix >= epsilon of the shape of UtM. *)
 From Coq Require Import List Arith Bool Reals Lra Lia.
-From TLV Require Import Base.Ops Base.PyList Base.Tensor Base.RSum Model.Nnls Model.NnlsEntry Proofs.NnlsProofs Proofs.NnlsProofsFista.
+From TLV Require Import Base.Ops Base.PyList Base.Tensor Base.RSum Model.Nnls Model.NnlsEntry Proofs.NnlsProofs Proofs.NnlsProofsFista Proofs.NnlsProofsStep Proofs.NnlsProofsExamples.
 Import ListNotations.
 Open Scope R_scope.
 
@@ -31,3 +31,39 @@ Proof.
   - intros i j Hi Hj. apply (fista_ge_eps UtM UtU r n); auto.
     destruct x0 as [x|]; [exact Wx | now apply zeros_like_wfm].
 Qed.
+
+(* the DEFAULT step 1 / (sigma + 2 ridge) meets the step-size condition of fista_step_descent as soon as sigma bounds the
+   Rayleigh quotient of UtU (the contract of the leading singular value of a symmetric PSD matrix) *)
+Lemma default_lr_condition r (G : nat -> nat -> R) (sigma rd : R) : 0 < sigma + 2 * rd ->
+  (forall d : nat -> R, quad r G d <= sigma * rsum r (fun i => (d i)^2)) ->
+  forall d : nat -> R, 1 / (sigma + 2 * rd) * (quad r G d + 2 * rd * rsum r (fun i => (d i)^2)) <= rsum r (fun i => (d i)^2).
+Proof.
+  intros Hp Hs d. specialize (Hs d). set (S2 := rsum r (fun i => (d i)^2)) in *.
+  assert (E : S2 = 1 / (sigma + 2 * rd) * ((sigma + 2 * rd) * S2)) by (field; lra). rewrite E at 2.
+  apply Rmult_le_compat_l; [|lra]. unfold Rdiv. rewrite Rmult_1_l. left. now apply Rinv_0_lt_compat.
+Qed.
+
+(* fista called with lr=None and n_iter_max=1 from a start whose column j is feasible does not increase that column's objective *)
+Theorem fista_call_default_step_descent UtM UtU r n (sp : option R) (rd sigma tol eps beta : R) (x0 : option mat) j :
+  wfm r r UtU -> wfm r n UtM -> (forall i k, Gf UtU i k = Gf UtU k i) -> 0 < sigma + 2 * rd ->
+  (forall d : nat -> R, quad r (Gf UtU) d <= sigma * rsum r (fun i => (d i)^2)) ->
+  match x0 with Some x => wfm r n x /\ (forall i, (i < r)%nat -> eps <= Mget x i j) | None => eps <= 0 end -> (j < n)%nat ->
+  let spv := match sp with Some s => s | None => 0 end in
+  let start := match x0 with Some x => x | None => zeros_like Rops UtM end in
+  exists W, fista_call Rops UtM UtU n true sp (Some rd) None sigma tol eps x0 [beta] = Ok W /\
+    qp_f r (Gf UtU) (bf UtM j) spv rd (colf W j) <= qp_f r (Gf UtU) (bf UtM j) spv rd (colf start j).
+Proof.
+  intros WG WB Gsym Hp Hs Hx Hj spv start. eexists. split; [reflexivity|].
+  assert (Wst : wfm r n start) by (unfold start; destruct x0 as [x|]; [apply Hx | now apply zeros_like_wfm]).
+  assert (Fst : forall i, (i < r)%nat -> eps <= Mget start i j).
+  { intros i Hi. unfold start. destruct x0 as [x|]; [now apply Hx|].
+    unfold zeros_like. rewrite (mget_mmap r n) by assumption. cbn [f0 Rops]. exact Hx. }
+  assert (Hlr : 0 < 1 / (sigma + 2 * rd)) by (unfold Rdiv; rewrite Rmult_1_l; now apply Rinv_0_lt_compat).
+  pose proof (fista_first_iteration_descent UtM UtU r n spv rd (1 / (sigma + 2 * rd)) eps WG WB Gsym Hlr
+                (default_lr_condition r (Gf UtU) sigma rd Hp Hs) tol start beta j Wst Fst Hj) as D.
+  unfold fista_default_lr, two. cbn [f0 f1 fadd fmul fdiv Rops]. fold spv. fold start. exact D.
+Qed.
+
+(* non-vacuity: sigma = 3 bounds the Rayleigh quotient of UtU = [[2,1],[1,2]] *)
+Lemma ex_sigma_bound : forall d : nat -> R, quad 2 (Gf ex_UtU) d <= 3 * rsum 2 (fun i => (d i)^2).
+Proof. intros d. unfold quad, Gf, mget, mrow, ex_UtU. cbn. pose proof (pow2_ge_0 (d 0%nat - d 1%nat)). nra. Qed.
